@@ -141,3 +141,86 @@ package kv
 //@   requires int64(r.target) >= 1000 && tsOK(timestamp) && calMs(r.targetFTime) && r.targetFTime <= timestamp && timestamp <= kFamilyEnd(intervalKind(int64(r.target)), r.targetFTime)
 //@   ensures[the_target_slot_contains_the_timestamp] r.targetFTime + int64(result) * int64(r.target) <= timestamp && timestamp < r.targetFTime + int64(result) * int64(r.target) + int64(r.target)
 //@ end
+
+//@ # ---- compaction output (C03): every merged key is written to the output file that is OPEN. Finishing an output
+//@ # file (it is big enough) must not strand the stream writer the merger holds: the next key is prepared on the next
+//@ # output file -----------------------------------------------------------------------------------------------------
+//@ ghost field github.com/lindb/lindb/kv/table.StreamWriter.of ref
+//@ func github.com/lindb/lindb/kv/table.Builder.StreamWriter
+//@   norefine
+//@   modifies nothing
+//@   fresh
+//@   ensures result != nil && result.of == self
+//@ end
+//@ func github.com/lindb/lindb/kv/table.StreamWriter.Prepare
+//@   norefine
+//@   modifies nothing
+//@ end
+//@ func github.com/lindb/lindb/kv/table.StreamWriter.Write
+//@   norefine
+//@   modifies nothing
+//@ end
+//@ func github.com/lindb/lindb/kv/table.StreamWriter.Commit
+//@   norefine
+//@   modifies nothing
+//@ end
+//@ func Family.newTableBuilder
+//@   norefine
+//@   modifies nothing
+//@   fresh
+//@   ensures result1 == nil ==> (result0 != nil && !result0.finished)
+//@ end
+//@ predicate outOK(c *compactJob) bool = c.state.builder != nil ==> !c.state.builder.finished
+//@ func compactJob.openCompactionOutputFile
+//@   prop C03
+//@   requires c.state != nil && c.family != nil
+//@   modifies c.state.builder
+//@   ensures result == nil ==> (c.state.builder != nil && !c.state.builder.finished)
+//@   ensures result != nil ==> c.state.builder == old(c.state.builder)
+//@ end
+//@ func compactionState.addOutputFile
+//@   assume
+//@   modifies c.outputs
+//@ end
+//@ func github.com/lindb/lindb/kv/table.Builder.Count
+//@   modifies nothing
+//@ end
+//@ func compactJob.finishCompactionOutputFile
+//@   prop C03
+//@   requires c.state != nil
+//@   modifies c.state.builder, c.state.outputs, any(table.Builder).finished
+//@   ensures[a_finished_output_file_is_no_longer_the_open_one] err == nil ==> c.state.builder == nil
+//@ end
+//@ func compactFlusher.beforeAdd
+//@   prop C03
+//@   requires cf.compactJob != nil && cf.compactJob.state != nil && cf.compactJob.family != nil && outOK(cf.compactJob)
+//@   modifies cf.compactJob.state.builder
+//@   ensures[an_output_file_is_open] result == nil ==> (cf.compactJob.state.builder != nil && !cf.compactJob.state.builder.finished && (old(cf.compactJob.state.builder) != nil ==> cf.compactJob.state.builder == old(cf.compactJob.state.builder)))
+//@ end
+//@ func compactFlusher.afterAdd
+//@   prop C03
+//@   requires cf.compactJob != nil && cf.compactJob.state != nil && cf.compactJob.state.builder != nil
+//@   modifies cf.compactJob.state.builder, cf.compactJob.state.outputs, any(table.Builder).finished
+//@   ensures[only_an_open_file_stays_the_output] result == nil ==> (cf.compactJob.state.builder == nil || cf.compactJob.state.builder == old(cf.compactJob.state.builder))
+//@ end
+//@ predicate cswOK(w *compactFlusherStreamWriter) bool = w.compactFlusher != nil && w.compactFlusher.compactJob != nil && w.compactFlusher.compactJob.state != nil && w.compactFlusher.compactJob.family != nil && w.StreamWriter != nil && w.StreamWriter.of == w.builder
+//@ func compactFlusherStreamWriter.Prepare
+//@   prop C03
+//@   requires cswOK(cfsw) && outOK(cfsw.compactFlusher.compactJob)
+//@   modifies cfsw.prepareErr, cfsw.builder, cfsw.StreamWriter, cfsw.compactFlusher.compactJob.state.builder
+//@   ensures[a_key_is_prepared_on_the_output_file_that_is_open] cfsw.prepareErr == nil ==> (cfsw.compactFlusher.compactJob.state.builder != nil && !cfsw.compactFlusher.compactJob.state.builder.finished && cfsw.builder == cfsw.compactFlusher.compactJob.state.builder && cfsw.StreamWriter.of == cfsw.compactFlusher.compactJob.state.builder)
+//@   ensures cswOK(cfsw)
+//@ end
+//@ func compactFlusherStreamWriter.Commit
+//@   prop C03
+//@   requires cswOK(cfsw) && (cfsw.prepareErr == nil ==> (cfsw.compactFlusher.compactJob.state.builder != nil && cfsw.builder == cfsw.compactFlusher.compactJob.state.builder))
+//@   modifies cfsw.compactFlusher.compactJob.state.builder, cfsw.compactFlusher.compactJob.state.outputs, any(table.Builder).finished
+//@   ensures[a_failed_prepare_is_reported] old(cfsw.prepareErr) != nil ==> result != nil
+//@   ensures cswOK(cfsw)
+//@ end
+//@ func compactFlusher.StreamWriter
+//@   prop C03
+//@   requires cf.compactJob != nil && cf.compactJob.state != nil && cf.compactJob.family != nil && outOK(cf.compactJob) && (cf.streamWriter != nil ==> (typeis(cf.streamWriter, "*compactFlusherStreamWriter") && cswOK(cast(cf.streamWriter, "*compactFlusherStreamWriter"))))
+//@   modifies cf.streamWriter, cf.compactJob.state.builder
+//@   ensures[the_merger_gets_the_rebinding_writer] result1 == nil ==> (result0 != nil && typeis(result0, "*compactFlusherStreamWriter") && cswOK(cast(result0, "*compactFlusherStreamWriter")))
+//@ end
